@@ -946,3 +946,113 @@ Proof.
     + unfold open_result in H. destruct (pstate (release_noop st1) =? 4); inversion H; subst st' ob; clear H;
         (apply in_app_or in Hi as [Hi|[Hi|[]]]; [now apply get_not_fwd in Hi|discriminate]).
 Qed.
+
+(* ---- the call-side invariant: every call is answered at most once ----------------------------------- *)
+Definition live (ws : list (Z * bool)) : list Z := map fst (filter snd ws).
+Definition ocalls (op : list (Z * option Z)) : list Z :=
+  flat_map (fun e : Z * option Z => match snd e with Some c => [c] | None => [] end) op.
+(* calls the pool still owes an answer: holding a connection, waiting (stack not drained), or blocked in Open().wait() *)
+Definition active (st : state) : list Z := map snd (lent st) ++ live (waiters st) ++ ocalls (opening st).
+
+Definition is_term (c : Z) (o : obs) : bool :=
+  match o with ODone c' => c' =? c | OError c' _ => c' =? c | _ => false end.
+Definition nterm (c : Z) (tr : list obs) : nat := length (filter (is_term c) tr).
+Definition cnt (c : Z) (l : list Z) : nat := count_occ Z.eq_dec l c.
+
+Lemma nterm_app c a b : nterm c (a ++ b) = (nterm c a + nterm c b)%nat.
+Proof. unfold nterm. now rewrite filter_app, app_length. Qed.
+Lemma cnt_app c a b : cnt c (a ++ b) = (cnt c a + cnt c b)%nat.
+Proof. apply count_occ_app. Qed.
+Lemma live_app a b : live (a ++ b) = live a ++ live b.
+Proof. unfold live. now rewrite filter_app, map_app. Qed.
+Lemma ocalls_app a b : ocalls (a ++ b) = ocalls a ++ ocalls b.
+Proof. unfold ocalls. apply flat_map_app. Qed.
+Lemma live_kill ws : live (kill ws) = [].
+Proof. induction ws as [|[x a] r IH]; cbn; auto. Qed.
+Lemma live_dead ws : Forall dead_w ws -> live ws = [].
+Proof.
+  induction ws as [|[x a] r IH]; intros F; auto. inversion F as [|? ? Hd Hr]; subst. unfold dead_w in Hd; cbn in Hd; subst a.
+  unfold live in *. cbn. auto.
+Qed.
+Lemma nterm_close c l : nterm c (map OClose l) = 0%nat.
+Proof. induction l; cbn; auto. Qed.
+Lemma nterm_fail c ws : nterm c (fail_obs ws) = cnt c (live ws).
+Proof.
+  induction ws as [|[x a] r IH]; auto. destruct a.
+  - change (fail_obs ((x, true) :: r)) with (OError x EServiceClosed :: fail_obs r).
+    change (live ((x, true) :: r)) with (x :: live r). unfold nterm, cnt in *. cbn.
+    destruct (Z.eq_dec x c) as [->|Ne].
+    + rewrite Z.eqb_refl. cbn. now rewrite IH.
+    + replace (x =? c) with false by (symmetry; now apply Z.eqb_neq). auto.
+  - exact IH.
+Qed.
+Lemma nterm_get c l : Forall get_ob l -> nterm c l = 0%nat.
+Proof. induction 1 as [|o l Ho _ IH]; auto. unfold nterm in *. cbn. destruct o; try contradiction; cbn; auto. Qed.
+
+Lemma close_pool_calls st st' ob c :
+  close_pool st = (st', ob) -> (cnt c (live (waiters st')) + nterm c ob = cnt c (live (waiters st)))%nat.
+Proof.
+  intros H. pose proof (close_pool_obs st) as Ho. rewrite H in Ho. cbn in Ho.
+  destruct (close_pool_fields _ _ _ H) as (_ & Ew & _). subst ob. rewrite Ew, live_kill, nterm_app, nterm_close, nterm_fail.
+  reflexivity.
+Qed.
+
+Lemma release_calls cf s st st' ob :
+  release cf s st = (st', ob) ->
+  lent st' = lent st /\ opening st' = opening st /\ ncall st' = ncall st /\
+  forall c, (cnt c (live (waiters st')) + nterm c ob = cnt c (live (waiters st)))%nat.
+Proof.
+  unfold release. intros H. destruct (pstate st =? 4). { inversion H; subst; sset. splits; auto. }
+  destruct (sstate st s =? 4).
+  { destruct (close_pool (set_size (size st - 1) st)) as [st2 ob2] eqn:Ec. inversion H; subst; clear H. sset.
+    destruct (close_pool_fields _ _ _ Ec) as (_ & _ & El & Eo & _ & _ & _ & En & _). sset. splits; auto.
+    intros c. pose proof (close_pool_calls _ _ _ c Ec) as Hc. sset.
+    change (ODropped s :: ob2) with ([ODropped s] ++ ob2). rewrite nterm_app. exact Hc. }
+  destruct (waiters st) eqn:Ew. 2:{ inversion H; subst; sset. rewrite Ew. splits; auto. }
+  destruct (size st <=? cmin cf); inversion H; subst; sset; rewrite Ew; splits; auto.
+Qed.
+
+Lemma process_queue_calls cf s st st' ob :
+  process_queue cf s st = (st', ob) ->
+  opening st' = opening st /\ ncall st' = ncall st /\
+  forall c, (cnt c (map snd (lent st')) + cnt c (live (waiters st')) + nterm c ob
+             = cnt c (map snd (lent st)) + cnt c (live (waiters st)))%nat.
+Proof.
+  unfold process_queue. intros H. destruct (waiters st) as [|w0 ws0] eqn:E0.
+  { destruct (release_calls _ _ _ _ _ H) as (El & Eo & En & Hc). splits; auto. intros c. specialize (Hc c). rewrite E0 in Hc. rewrite El. lia. }
+  rewrite <- E0 in *. pose proof (pq_loop_spec (waiters st)) as S. destruct (pq_loop (waiters st)) as [[c0|] ws'].
+  - destruct S as (pre & E & F & _). inversion H; subst st' ob; clear H. sset. splits; auto. intros c.
+    rewrite E, map_app, cnt_app, live_app, (live_dead _ F). cbn [map snd app].
+    change (live ((c0, true) :: ws')) with (c0 :: live ws'). unfold cnt, nterm. cbn. destruct (Z.eq_dec c0 c); lia.
+  - destruct S as (pre & E & F & N). specialize (N eq_refl). subst ws'. rewrite app_nil_r in E.
+    destruct (release_calls _ _ _ _ _ H) as (El & Eo & En & Hc). sset. splits; auto. intros c.
+    specialize (Hc c). rewrite El, E, (live_dead pre F). change (live []) with (@nil Z) in Hc. lia.
+Qed.
+
+Definition K (c : Z) (st : state) (tr : list obs) : nat := (nterm c tr + cnt c (active st))%nat.
+
+Lemma live_cons_true x r : live ((x, true) :: r) = x :: live r. Proof. reflexivity. Qed.
+Lemma live_cons_false x r : live ((x, false) :: r) = live r. Proof. reflexivity. Qed.
+Lemma cnt_cons c x l : cnt c (x :: l) = if Z.eq_dec x c then S (cnt c l) else cnt c l. Proof. reflexivity. Qed.
+
+Lemma live_mark_dead c1 ws c :
+  cnt c (live (mark_dead c1 ws)) = if Z.eq_dec c1 c then 0%nat else cnt c (live ws).
+Proof.
+  induction ws as [|[x a] r IH].
+  - cbn. destruct (Z.eq_dec c1 c); reflexivity.
+  - change (mark_dead c1 ((x, a) :: r)) with ((if (x =? c1) && a then (x, false) else (x, a)) :: mark_dead c1 r).
+    destruct a.
+    + rewrite andb_true_r. destruct (Z.eqb_spec x c1) as [->|Ne].
+      * rewrite live_cons_false, live_cons_true, cnt_cons, IH. destruct (Z.eq_dec c1 c); reflexivity.
+      * rewrite !live_cons_true, !cnt_cons, IH. destruct (Z.eq_dec c1 c); destruct (Z.eq_dec x c); auto; congruence.
+    + rewrite andb_false_r, !live_cons_false. exact IH.
+Qed.
+
+Lemma existsb_live c ws : existsb (fun w : Z * bool => (fst w =? c) && snd w) ws = true -> (1 <= cnt c (live ws))%nat.
+Proof.
+  induction ws as [|[x a] r IH]; cbn; [discriminate|]. intros H. apply orb_true_iff in H as [H|H].
+  - apply andb_true_iff in H as [H1 H2]. apply Z.eqb_eq in H1. subst. change (live ((c, true) :: r)) with (c :: live r).
+    unfold cnt. cbn. destruct (Z.eq_dec c c); [lia|congruence].
+  - specialize (IH H). destruct a; auto. change (live ((x, true) :: r)) with (x :: live r). unfold cnt in *. cbn.
+    destruct (Z.eq_dec x c); lia.
+Qed.
